@@ -65,6 +65,14 @@ def invalid_requests(cfg, addr_of):
             for v in TS.EDGE[rtyp]:
                 yield ("wt", sym(n - 1 if n > 1 else None), rt, (v,), None)
                 yield ("wf", cia(None), rt, (v,), 1, 0)
+            if n >= 2:
+                # several values of which only a later one may be unrepresentable in the tag's type: a refusal must not leave the
+                # earlier ones behind
+                small = TS.SMALL[rtyp]
+                for v in TS.EDGE[rtyp]:
+                    for vec in ((small, v), (v, small)):
+                        yield ("wt", sym(None), rt, vec, None)
+                        yield ("wf", sym(None), rt, vec, 2, 0)
         if t in W.SIZE:
             good = W.enc_values(t, (v0,) * n)
             a = addr_of[name]
